@@ -1,0 +1,66 @@
+//go:build verif
+
+package testutil
+
+// Contracts for the fixture generators (property C19). Comment-only file, read by /verif/govc.
+//@ props C19
+
+// isDupe: a candidate name passes only when no existing sibling has the same name once the
+// extension (what follows the last ".") is dropped from both, the sibling's name being the last
+// segment of its path.
+//@ func testutil.isDupe
+//@ ensures a-name-that-passes-shares-its-stem-with-no-sibling: !result ==> (forall i int :: 0 <= i && i < len(children) ==> stemOf(baseOf(children[i].Path)) != stemOf(old(name)))
+//@ inst a-name-that-passes-shares-its-stem-with-no-sibling: i: i
+//@ loop 0 invariant no-sibling-so-far-has-the-stem: (forall j int :: 0 <= j && j <= rangeindex ==> stemOf(baseOf(children[j].Path)) != stemOf(old(name)))
+//@ inst no-sibling-so-far-has-the-stem: j: j
+//@ assigns nothing
+
+// packDirectory: every child becomes one directory entry, named by the last segment of the child's
+// own path, sized by the child's own cumulative size; the returned entry is the root of the tree
+// (empty path) over exactly the children it was given, sized as the directory builder reported.
+//@ func testutil.packDirectory
+//@ at call data/builder.BuildUnixFSDirectoryEntry#1 assert entry-is-named-and-sized-as-the-child-it-stands-for: callee_name == baseOf(child.Path) && callee_size == int64(child.TSize)
+//@ ensures the-entry-describes-the-directory-it-stored: err == nil ==> result0.Path == "" && len(result0.Children) == len(children)
+//@ at return assert the-entry-carries-the-size-the-directory-builder-reported: err == nil ==> result0.TSize == size
+//@ ensures error-means-no-entry: err != nil ==> result0.Path == "" && len(result0.Children) == 0
+
+// BuildDirectory / GenerateDirectoryFrom / UnixFSFile: the path algebra of the generators.
+//@ func testutil.GenerateDirectoryFrom
+//@ ensures the-directory-carries-the-path-it-was-asked-for: result.Path == dir
+//@ at call testutil.GenerateDirectoryFrom#1 assert a-sub-directory-is-generated-under-its-parent-path-plus-a-fresh-name: callee_dir == cat(cat(dir, "/"), newDir) && callee_linkSys == linkSys && callee_randReader == randReader && (forall i int :: 0 <= i && i < len(children) ==> stemOf(baseOf(children[i].Path)) != stemOf(newDir))
+//@ inst a-sub-directory-is-generated-under-its-parent-path-plus-a-fresh-name: i: i
+
+//@ func testutil.UnixFSFile
+//@ domain a-size-that-can-be-buffered: 0 <= size && size <= (1 << 32)
+//@ ensures a-file-entry-has-no-path-yet: err == nil ==> result0.Path == "" && len(result0.Children) == 0
+//@ at return assert a-file-entry-carries-the-size-the-file-builder-reported: err == nil ==> result0.TSize == uint64(gotSize)
+
+//@ func testutil.applyOptions
+//@ ensures options-are-always-there: result != nil
+
+// UnixFSDirectory: every child is asked for under this directory's own path plus "/" plus a name
+// that passed isDupe against the children generated so far, and the directory itself carries
+// the path it was asked to have.
+//@ func testutil.UnixFSDirectory
+//@ at call dynamic#1 assert a-child-is-asked-for-under-the-parent-path-plus-a-fresh-name: callee_name == cat(cat(o.dirname, "/"), name) && (forall i int :: 0 <= i && i < len(children) ==> stemOf(baseOf(children[i].Path)) != stemOf(name))
+//@ inst a-child-is-asked-for-under-the-parent-path-plus-a-fresh-name: i: i
+//@ at return assert the-directory-carries-the-path-it-was-asked-for: err == nil ==> result0.Path == o.dirname
+
+// The default child generator: one child per call, carrying exactly the path it was asked for (a
+// file entry gets it assigned, a sub-directory is generated with it as its directory name).
+//@ func testutil.UnixFSDirectory$1
+//@ at call testutil.WithDirname#1 assert a-sub-directory-is-generated-under-the-path-it-was-asked-for: callee_dirname == name
+//@ at return assert a-file-child-carries-the-path-it-was-asked-for: err == nil ==> entry.Path == name
+
+// BuildDirectory: the directory is packed over exactly the children given, with a fanout of 16
+// (bit width 4) when sharded and unsharded otherwise.
+//@ func testutil.BuildDirectory
+//@ at call testutil.packDirectory#1 assert packs-the-given-children-with-the-requested-sharding: callee_children == children && (sharded ==> callee_bitWidth == 4) && (!sharded ==> callee_bitWidth == 0)
+//@ ensures the-entry-is-a-root-over-the-given-children: result.Path == "" && len(result.Children) == len(children)
+
+// ToDirEntryFrom: what is read back carries the path it was read under (or is the empty entry of a
+// block that may be missing), and every child is read back under its parent's path plus "/" plus
+// the name the directory lists it under.
+//@ func testutil.ToDirEntryFrom
+//@ ensures read-back-under-the-path-asked-for: result.Path == rootPath || (!expectFull && result.Path == "" && len(result.Children) == 0)
+//@ at call testutil.ToDirEntryFrom#1 assert a-listed-child-is-read-back-under-the-parent-path-plus-its-name: callee_rootPath == cat(cat(rootPath, "/"), childName) && callee_expectFull == expectFull
